@@ -134,10 +134,12 @@ class SLEWorld:
         self.s.imol['s', self.solute] = n * (1 - f)
         for sv in solvents:
             self.s.imol['l', sv] = 10 ** rng.uniform(-2, 2)
+        self.other = None
         if rng.random() < 0.3:
             # another chemical held as a solid at entry (it must stay where it is and is no solvent)
             other = rng.choice([i for i in SOLUTES + ['Octane'] if i != self.solute])
             self.s.imol['s', other] = 10 ** rng.uniform(-1, 1)
+            self.other = other if other in SOLUTES else None
         self.tot = sum(_rows(self.s).values())
         self.q = np.where(self.tot > 0, self.tot / QUANTA, 1e-8)
 
@@ -154,14 +156,22 @@ class SLEWorld:
         self.tot = sum(_rows(self.s).values())
         self.q = np.where(self.tot > 0, self.tot / QUANTA, 1e-8)
 
+    def switch_solute(self):
+        """the next calls name the other solute held by the stream (same stream, same solver object)"""
+        if self.other is None:
+            return False
+        self.solute, self.other = self.other, self.solute
+        return True
+
     def sle(self, T, solubility):
-        obs = dict(exc=NONE, msg='', moved_other=False, x6=0, xmax6=-1, solid=0, liquid=0, pure=self.pure, above=False)
+        obs = dict(exc=NONE, msg='', moved_other=False, x6=0, xmax6=-1, solid=0, liquid=0, pure=self.pure, above=False, fresh=0)
         j = IDS.index(self.solute)
         try:
             with warnings.catch_warnings():
                 warnings.simplefilter('ignore')
                 with np.errstate(all='ignore'):
                     before = _rows(self.s)
+                    obs['pure'] = bool((sum(before.values()) > 0).sum() == 1)      # the solute is the only chemical the stream holds
                     kw = dict(T=T)
                     if solubility is not None:
                         kw['solubility'] = solubility
@@ -179,6 +189,17 @@ class SLEWorld:
                     cons = abs(sum(r[j] for r in after.values()) - sum(r[j] for r in before.values())) / self.q[j]
                     if cons > 6:
                         obs['moved_other'] = True
+                    # a new stream (new solver object, no history) holding the material as it was before the call
+                    D = tmo.MultiStream(None, thermo=thermo(), phases=''.join(self.s.phases), T=self.s.T, P=self.s.P)
+                    for ph, row in before.items():
+                        for i, v in enumerate(row):
+                            if v:
+                                D.imol[ph, IDS[i]] = v
+                    try:
+                        D.sle(self.solute, **kw)
+                        obs['fresh'] = int(min(abs(_rows(D)['l'][j] - after['l'][j]) / self.q[j], 2e9))
+                    except Exception:
+                        obs['fresh'] = 0          # (a first call that raises is reported through the stream's own first call)
         except Exception as e:
             obs['exc'], obs['msg'] = type(e).__name__, str(e)[:160]
         return obs
